@@ -184,8 +184,8 @@ CycleSets == {
 KindRefOrNull == TDisj(<<TRef("p", "Kind"), TNull>>, "", <<>>)
 \* three packages, each with structs written in place (as a field, as the items of an array, as the values of a map): the
 \* language chains that name such structs (Go, Python, Java, PHP) add objects to every package, one package after the other;
-\* r declares a struct under the name the chain gives to p's; r refers to constants of p that are not strings.  Declared in
-\* both orders.
+\* r declares a struct under the name the chain gives to p's (PDashOpts); r refers to constants of p that are not strings.
+\* Declared in both orders.
 Pipe3 == <<
   SchemaOf("p", <<Obj("p", "Dash", TStruct(<<Field("title", TString, TRUE), Field("opts", TStruct(<<Field("a", TString, TRUE)>>), TRUE),
                                              Field("items", TArray(TStruct(<<Field("n", TString, TRUE)>>)), FALSE)>>)),
@@ -194,7 +194,7 @@ Pipe3 == <<
                                               Field("byName", TMap(TString, TStruct(<<Field("v", TString, TRUE)>>)), FALSE)>>))>>),
   SchemaOf("r", <<Obj("r", "Row", TStruct(<<Field("id", TString, TRUE), Field("dash", TRef("p", "Dash"), FALSE),
                                             Field("version", TRef("p", "Version"), TRUE), Field("level", TRef("p", "Level"), TRUE)>>)),
-                  Obj("r", "DashOpts", TStruct(<<Field("mine", TString, TRUE)>>))>>)>>
+                  Obj("r", "PDashOpts", TStruct(<<Field("mine", TString, TRUE)>>))>>)>>
 PipeSets == {
   <<SchemaOf("p", <<Obj("p", "Options", TStruct(<<Field("size", TScalar("int64"), TRUE), Field("title", WithDef(TString, VStr("t")), FALSE),
                                                    Field("legend", TRef("p", "Legend"), TRUE), Field("kind", TRef("p", "Kind"), TRUE),
